@@ -293,6 +293,15 @@ def copy_sim(rebound, sim):
     return _quiet(sim.copy)
 
 
+def _steps_err(sim, k):
+    """steps(); returns None or the text of the error the library reported."""
+    try:
+        steps(sim, k)
+        return None
+    except Exception as e:
+        return "%s: %s" % (type(e).__name__, e)
+
+
 def steps(sim, k):
     if k > 0:
         _quiet(sim.steps, int(k))
@@ -481,7 +490,8 @@ def _sweep_for(rng, integ):
         rid = rec["id"]
         rec["prio"] = int(any(t in rid for t in ("/close", "after:", "/sm0", "/peri/", "synchronize",
                                                  "collision=direct/hardsphere")))
-        if any(t in rid for t in ("hardsphere+3rd", "merge/eps0/after:add", "bs/close", "bs/after:dt", "sei/after:OMEGA")):
+        if any(t in rid for t in ("hardsphere+3rd", "merge/eps0/after:add", "bs/close", "bs/after:dt", "sei/after:OMEGA",
+                                  "tree/cellcrossing")):
             rec["prio"] = 2
         out.append(rec)
 
@@ -620,10 +630,23 @@ def _sweep_for(rng, integ):
     if integ in ("ias15", "leapfrog"):
         for oa in (0.25, 1.0):
             for k in (0, 2, 13):
-                add(_with(b, "gravity=tree/oa2=%g" % oa, gravity="tree", box=[10.0, 1, 1, 1],
+                add(_with(b, "gravity=tree/oa2=%g" % oa, gravity="tree", box=[100.0, 1, 1, 1],
                           particles=_box_particles(rng, 4), sim={"opening_angle2": oa, "dt": 0.02}), k=k)
-        add(_with(b, "gravity=tree/2x2x2", gravity="tree", box=[5.0, 2, 2, 2],
+        add(_with(b, "gravity=tree/2x2x2", gravity="tree", box=[50.0, 2, 2, 2],
                   particles=_box_particles(rng, 4), sim={"dt": 0.02}), k=5)
+        # fixed initial conditions for which a particle leaves its tree cell between the save point and the
+        # next tree update (the lazily detected event permutes the particle array)
+        tree_ps = [{"m": 0.99662085094062, "x": 0.3818240543302478, "y": 0.17404119887163905, "z": -1.570168594714536,
+                    "vx": 0.032677427302144124, "vy": -0.2400519224946394, "vz": 0.03199175325545445, "r": 0.105},
+                   {"m": 0.882480370309797, "x": -1.917466797170371, "y": -2.535973448658315, "z": 2.9900980523126917,
+                    "vx": 0.08758372776195139, "vy": -0.027515344548310505, "vz": 0.12006801703666137, "r": 0.144},
+                   {"m": 0.32760643236878667, "x": 0.5967212049650987, "y": 2.632588700217805, "z": 0.3398322799005049,
+                    "vx": 0.2797886211421809, "vy": -0.07480524256687043, "vz": -0.15884154451017177, "r": 0.143},
+                   {"m": 0.8592424502422518, "x": 2.8025474918166022, "y": -0.5083737511558191, "z": 0.41042946678918657,
+                    "vx": 0.04789502474899199, "vy": 0.2543592476118746, "vz": 0.11133562840694583, "r": 0.066}]
+        for k in (4, 5):
+            add(_with(b, "gravity=tree/cellcrossing", gravity="tree", box=[5.0, 2, 2, 2], particles=tree_ps,
+                      sim={"dt": 0.02}), k=k)
     if integ == "saba":
         add(_with(b, "gravity=jacobi", gravity="jacobi"))
 
@@ -1020,6 +1043,10 @@ def _key_for(recipe, stage, detail, fields):
         if integ == "bs":
             # restored BS simulation starts with first_or_last_step forced to 1 (reb_ode_create)
             return "continue:bs:first_or_last_step"
+        if recipe.get("gravity") == "tree" or recipe.get("collision") in ("tree", "linetree"):
+            # the tree is rebuilt on load; the original's stale tree makes reb_simulation_update_tree
+            # remove + re-append a particle that left its cell, the restored one does not: particle order differs
+            return "continue:tree:reorder"
         if integ == "trace" and recipe.get("collision") not in (None, "none"):
             # TRACE uses the never-persisted allocation counter N_allocated_collisions as a flag
             return "continue:trace:N_allocated_collisions"
@@ -1088,8 +1115,12 @@ def continuation_oracle(rebound, recipe, ks=(1, 7, 50)):
     K = 0
     for k in ks:
         K += k
-        for s in (sim, r, c):
-            steps(s, k)
+        errs = [_steps_err(s, k) for s in (sim, r, c)]
+        if any(errs):
+            # the library reported an error while stepping (e.g. a particle left the box of a tree code)
+            if len(set(errs)) > 1:
+                fails.append(_fail(recipe, "continue", K, [], "original/restored/copy react differently: %r" % (errs,)))
+            break
         co = canon(rebound, save_bytes(rebound, sim), mask_unread=True)
         for tag, other in (("restored", r), ("copy", c)):
             d = diff_fields(co, canon(rebound, save_bytes(rebound, other), mask_unread=True))
@@ -1097,8 +1128,8 @@ def continuation_oracle(rebound, recipe, ks=(1, 7, 50)):
                 fails.append(_fail(recipe, "continue", K, d, tag))
         twin = build(rebound, recipe)
         apply_after(rebound, recipe, twin)
-        steps(twin, K)
-        d = diff_fields(co, canon(rebound, save_bytes(rebound, twin), mask_unread=True))
+        e = _steps_err(twin, K)
+        d = diff_fields(co, canon(rebound, save_bytes(rebound, twin), mask_unread=True)) if e is None else ["<error: %s>" % e]
         if d:
             fails.append(_fail(recipe, "continue", K, d, "twin"))
         if any(f["stage"] == "continue" for f in fails):
